@@ -89,7 +89,9 @@ def check_parity(rep, prog):
         found = False
         for c in inner:
             for x in c.walk():
-                if x.k == 'BinaryOperator' and x.op in ('^', '!='):
+                if x.k in ('BinaryOperator', 'ConditionalOperator', 'UnaryOperator') and (x.k != 'BinaryOperator' or x.op in ('^', '!=', '==')) and \
+                        any(y.k == 'MemberExpr' and y.decl and y.decl.get('name') == 'info' for y in x.walk()) and \
+                        not (x.k == 'UnaryOperator' and x.op != '!'):
                     found = True
 
                     def atom_of(leaf):
@@ -321,6 +323,20 @@ def less_atoms(fn, leaf, quantities):
     return None
 
 
+def less_formula(fn, leaf, quantities):
+    """formula over ('lt', A, B) atoms for leaf; handles <= and >= as negations of the strict comparison in the other direction"""
+    la = less_atoms(fn, leaf, quantities)
+    if la:
+        return ex.f_atom(('lt',) + la)
+    s = leaf.strip_all()
+    if s.k == 'BinaryOperator' and s.op in ('<=', '>='):
+        a, b = quantities(s.c[0]), quantities(s.c[1])
+        if a and b:
+            # a >= b  ==  !(a < b) ;  a <= b  ==  !(b < a)
+            return ex.f_not(ex.f_atom(('lt', a, b))) if s.op == '>=' else ex.f_not(ex.f_atom(('lt', b, a)))
+    return None
+
+
 def check_pruning(rep, prog):
     n = 0
     for fn in prog.fns('parmcb::bidirectional_signed_dijkstra'):
@@ -364,9 +380,9 @@ def check_pruning(rep, prog):
                 return ex.f_atom('set')
             if s.k == 'CXXMemberCallExpr' and s.callee and s.callee['name'] == 'empty':
                 return ex.f_atom(('empty', ex.key(s.object_arg())))
-            la = less_atoms(fn, leaf, quantities)
-            if la:
-                return ex.f_atom(('lt',) + la)
+            lf_ = less_formula(fn, leaf, quantities)
+            if lf_ is not None:
+                return lf_
             return None
 
         def implies_not_less(node, a, b, what, extra=None):
